@@ -13,6 +13,7 @@ import (
 	"verif/harness/h"
 
 	"github.com/golang/protobuf/proto"
+	"github.com/itchio/lake"
 	"github.com/itchio/wharf/pwr"
 	"github.com/itchio/wharf/wsync"
 	"pgregory.net/rapid"
@@ -23,6 +24,7 @@ type Spec struct {
 	OldKind string `json:"old_kind"` // empty | identical | other
 	Old     h.Tree `json:"old,omitempty"`
 	Comp    h.Comp `json:"comp"`
+	Jitter  []byte `json:"jitter,omitempty"` // diff-time producer reads the source through short-reading, yielding readers
 }
 
 // refWeak is the weak hash written from the format description:
@@ -76,7 +78,13 @@ func check(s Spec) h.Result {
 		return h.Result{Skip: "cannot write new tree"}
 	}
 	cl := []string{"old:" + s.OldKind, "comp:" + []string{"none", "brotli", "gzip"}[s.Comp.Algo]}
-	df, err := h.Diff(od, nd, s.Comp, nil)
+	var dopts *h.DiffOpts
+	if len(s.Jitter) > 0 {
+		cl = append(cl, "producer:diff-time-with-short-reads")
+		j := h.NewJitter(s.Jitter, 0)
+		dopts = &h.DiffOpts{WrapPool: func(p lake.Pool) lake.Pool { return &h.JitterPool{Pool: p, J: j} }}
+	}
+	df, err := h.Diff(od, nd, s.Comp, dopts)
 	if err != nil {
 		return h.Failf("diff failed: %v", err)
 	}
@@ -225,6 +233,9 @@ var prop = h.Prop[Spec]{
 		s.OldKind = rapid.SampledFrom([]string{"empty", "identical", "other", "other"}).Draw(t, "old-kind")
 		if s.OldKind == "other" {
 			s.Old = h.GenOldTree(t, h.GenOpts{MaxOld: 4})
+		}
+		if rapid.IntRange(0, 2).Draw(t, "jitter") == 0 {
+			s.Jitter = rapid.SliceOfN(rapid.Byte(), 1, 16).Draw(t, "jitter-bytes")
 		}
 		return s
 	},
